@@ -592,6 +592,54 @@ func c04Record(c *core.Ctx) {
 		{"absent", "isnil(" + e2kmN + "core.Wallet.AccountByPublicKey(p0.wallet, *)#0)", "only a key not yet in the wallet is added"},
 	})
 	c.Min(rule, k, 1, "saveShare in AddShare")
+	// the bump is a read-decide-write sequence on the record: it must not interleave with signing.
+	// Signing holds walletLock.RLock (below); the bump in AddShare must hold the write lock and run
+	// only for a key that is not in the wallet (an absent key cannot be signing).
+	lookup := e2kmN + "core.Wallet.AccountByPublicKey(p0.wallet, github.com/herumi/bls-eth-go-binary/bls.PublicKey.SerializeToHexStr(github.com/herumi/bls-eth-go-binary/bls.SecretKey.GetPublicKey*(p1)))"
+	k = atCalls(c, rule, ekmKM+"AddShare", ekmN+"ethKeyManagerSigner.BumpSlashingProtection", []Req{
+		{"under-wallet-write-lock", "called(sync.RWMutex.Lock(p0.walletLock))", "the bump must exclude concurrent signing (which holds the read lock)"},
+		{"unlock-deferred", "deferred(sync.RWMutex.Unlock(p0.walletLock))", "the write lock is held until AddShare returns"},
+		{"only-for-an-absent-key", "isnil(" + lookup + "#0)", "a key already in the wallet may be signing: its record must not be rewritten by a bump"},
+	})
+	c.Min(rule, k, 1, "bump in AddShare")
+	// the existence lookup uses the key form the wallet indexes accounts by (hex of the serialised
+	// public key): with any other form the lookup never matches and every AddShare re-bumps and re-adds
+	if f := fn(c, rule, ekmKM+"AddShare"); f != nil {
+		a := c.E.Analyze(f)
+		n := 0
+		for _, cs := range callsIn(f, e2kmN+"core.Wallet.AccountByPublicKey") {
+			n++
+			got := a.D.Call(cs.Instr).String()
+			c.Decide(ens.Glob(lookup, got), rule, "AddShare|existence lookup by hex(serialised public key)", c.P.Pos(cs.Instr.Pos()), got,
+				"AddShare looks the account up by "+got+"; the wallet indexes accounts by hex.EncodeToString(ValidatorPublicKey()) — with another key form the lookup never matches, so a repeated AddShare re-bumps the record and stores a second account")
+		}
+		c.Decide(n == 1, rule, "AddShare|one existence lookup", c.P.Pos(f.Pos()), "", fmt.Sprintf("%d AccountByPublicKey calls", n))
+	}
+	for _, w := range []string{e2km + "/wallets/nd.(*Wallet).AddValidatorAccount", e2km + "/wallets/hd.(*Wallet).AddValidatorAccount"} {
+		if f := fn(c, rule, w); f != nil {
+			a := c.E.Analyze(f)
+			n := 0
+			for _, b := range f.Blocks {
+				for _, in := range b.Instrs {
+					mu, ok := in.(*ssa.MapUpdate)
+					if !ok || !strings.HasSuffix(a.D.D(mu.Map).String(), ".indexMapper") {
+						continue
+					}
+					n++
+					key := a.D.D(mu.Key).String()
+					c.Decide(ens.Glob("encoding/hex.EncodeToString(*ValidatorPublicKey(p1))", key), rule, short(w)+"|index key = hex(validator public key)", c.P.Pos(mu.Pos()), key, "the wallet indexes accounts by "+key)
+				}
+			}
+			c.Min(rule, n, 1, short(w)+" index write")
+		}
+	}
+	// signing holds the wallet read lock for the whole routed call
+	for _, m := range []string{"SignBeaconAttestation", "SignBeaconBlock", "SignBlindedBeaconBlock"} {
+		atCalls(c, rule, ekmKM+"signBeaconObject", e2kmN+"signer.ValidatorSigner."+m, []Req{
+			{"under-wallet-read-lock", "called(sync.RWMutex.RLock(p0.walletLock))", "signing and bumping exclude each other through walletLock"},
+			{"unlock-deferred", "deferred(sync.RWMutex.RUnlock(p0.walletLock))", ""},
+		})
+	}
 	wt, wn := methodTargets(c, rule, e2km+"/core.Wallet.CreateValidatorAccountFromPrivateKey")
 	if wt != nil {
 		whoMayCall(c, rule, "Wallet.CreateValidatorAccountFromPrivateKey", wt, wn, map[string]string{
